@@ -281,6 +281,20 @@ func GenMsg(t *rapid.T, o GenOpts) (*Msg, MsgInfo) {
 	trips := make([]TripDesc, nT)
 	for i := range trips {
 		trips[i] = GenTripDesc(t, i, o.Zone)
+		if i > 0 && rapid.IntRange(0, 4).Draw(t, "shareTripID") == 0 {
+			// distinct descriptors may share the trip_id string (and the start date) and differ elsewhere:
+			// e.g. the runs of a frequency-based trip. They are still different trips.
+			prev := trips[rapid.IntRange(0, i-1).Draw(t, "shareWith")]
+			if prev.TripID != nil {
+				trips[i].TripID = cp(prev.TripID)
+				if rapid.Bool().Draw(t, "shareStartDate") {
+					trips[i].StartDate = cp(prev.StartDate)
+				}
+				if trips[i].StartTime == nil {
+					trips[i].StartTime = P(fmt.Sprintf("%02d:%02d:00", 5+i, i))
+				}
+			}
+		}
 	}
 	// distinctness of the parsed identifiers (the "neither id nor route" class could still coincide)
 	seen := map[string]bool{}
@@ -419,6 +433,11 @@ func GenMsg(t *rapid.T, o GenOpts) (*Msg, MsgInfo) {
 	}
 	for i := range ents {
 		ents[i].ID = fmt.Sprintf("e%d", i)
+		if i > 0 && ents[i].AL == nil && ents[i-1].AL == nil && rapid.IntRange(0, 7).Draw(t, "dupEntityID") == 0 {
+			// the entity id says nothing about trips and vehicles: combined feeds reuse one id for a trip update
+			// and the vehicle position of the same run
+			ents[i].ID = ents[i-1].ID
+		}
 		if rapid.IntRange(0, 9).Draw(t, "alertIdKind") == 0 && ents[i].AL != nil {
 			ents[i].ID = rapid.SampledFrom([]string{"", "lmm:alert:1", "a b", "é"}).Draw(t, "alertId") + fmt.Sprint(i)
 		}
